@@ -1,5 +1,6 @@
 //! Executors for GenericSemaphore / GenericSharedSemaphore (model: coq/Model/Semaphore.v).
 use crate::core::*;
+use crate::lib_or_panic;
 use futures_core::future::FusedFuture;
 use futures_intrusive::sync::{
     GenericSemaphore, GenericSemaphoreAcquireFuture, GenericSemaphoreReleaser,
@@ -53,7 +54,7 @@ macro_rules! sem_exec {
                 match op {
                     [0, f, n] if (*f as usize) < self.futs.len() && !self.futs.alive(*f as usize) => {
                         let sem = &self.sem;
-                        let fut = lib(|| sem.acquire(*n as usize)).unwrap();
+                        let fut = lib_or_panic!(o, || sem.acquire(*n as usize));
                         self.futs.put(*f as usize, fut);
                         o.r = vec![R_UNIT];
                     }
